@@ -1,6 +1,7 @@
 package lib
 
 import (
+	"context"
 	"crypto"
 	"crypto/ecdsa"
 	"crypto/rand"
@@ -10,6 +11,8 @@ import (
 	"crypto/x509/pkix"
 	"encoding/asn1"
 	"fmt"
+	"github.com/notaryproject/tspclient-go"
+	"github.com/notaryproject/tspclient-go/pki"
 	"math/big"
 	"time"
 )
@@ -86,6 +89,7 @@ type tstInfo struct {
 	SerialNumber   *big.Int
 	GenTime        time.Time `asn1:"generalized"`
 	Accuracy       accuracy  `asn1:"optional"`
+	Nonce          *big.Int  `asn1:"optional"`
 }
 
 type essCertIDv2 struct {
@@ -120,6 +124,8 @@ type TokenSpec struct {
 	GenTime   time.Time
 	AccuracyS int
 	OmitCerts bool
+	Hashed    []byte   // if set, the message imprint is this digest (a TSA only ever sees the digest) and Message is ignored
+	Nonce     *big.Int // echoed in the token when set
 }
 
 func hashOID(h crypto.Hash) asn1.ObjectIdentifier {
@@ -137,13 +143,18 @@ func hashOID(h crypto.Hash) asn1.ObjectIdentifier {
 func (t *TSA) Token(spec TokenSpec) []byte {
 	h := spec.Hash.New()
 	h.Write(spec.Message)
+	hashed := h.Sum(nil)
+	if spec.Hashed != nil {
+		hashed = spec.Hashed
+	}
 	info := tstInfo{
 		Version:        1,
 		Policy:         asn1.ObjectIdentifier{1, 3, 6, 1, 4, 1, 4146, 2, 3},
-		MessageImprint: messageImprint{HashAlgorithm: pkix.AlgorithmIdentifier{Algorithm: hashOID(spec.Hash)}, HashedMessage: h.Sum(nil)},
+		MessageImprint: messageImprint{HashAlgorithm: pkix.AlgorithmIdentifier{Algorithm: hashOID(spec.Hash)}, HashedMessage: hashed},
 		SerialNumber:   big.NewInt(time.Now().UnixNano()),
 		GenTime:        spec.GenTime.UTC().Truncate(time.Second),
 		Accuracy:       accuracy{Seconds: spec.AccuracyS},
+		Nonce:          spec.Nonce,
 	}
 	infoBytes, err := asn1.Marshal(info)
 	if err != nil {
@@ -172,14 +183,14 @@ func (t *TSA) Token(spec TokenSpec) []byte {
 	if err != nil {
 		panic(err)
 	}
-	hashed := sha256.Sum256(enc)
+	attrDigest := sha256.Sum256(enc)
 	switch k := t.Key.(type) {
 	case *rsa.PrivateKey:
 		si.SignatureAlgorithm = pkix.AlgorithmIdentifier{Algorithm: oidSHA256WithRSA}
-		si.Signature, err = rsa.SignPKCS1v15(rand.Reader, k, crypto.SHA256, hashed[:])
+		si.Signature, err = rsa.SignPKCS1v15(rand.Reader, k, crypto.SHA256, attrDigest[:])
 	case *ecdsa.PrivateKey:
 		si.SignatureAlgorithm = pkix.AlgorithmIdentifier{Algorithm: oidECDSAWithSHA256}
-		si.Signature, err = ecdsa.SignASN1(rand.Reader, k, hashed[:])
+		si.Signature, err = ecdsa.SignASN1(rand.Reader, k, attrDigest[:])
 	default:
 		panic(fmt.Sprintf("key %T", t.Key))
 	}
@@ -205,4 +216,22 @@ func (t *TSA) Token(spec TokenSpec) []byte {
 		panic(err)
 	}
 	return out
+}
+
+// Timestamp makes the in-process TSA usable as a tspclient.Timestamper (what a signer is handed to countersign at
+// signing time): it answers a request with a granted response holding a token over the request's imprint and nonce.
+func (t *TSA) Timestamp(ctx context.Context, req *tspclient.Request) (*tspclient.Response, error) {
+	var h crypto.Hash
+	switch {
+	case req.MessageImprint.HashAlgorithm.Algorithm.Equal(oidSHA256):
+		h = crypto.SHA256
+	case req.MessageImprint.HashAlgorithm.Algorithm.Equal(oidSHA384):
+		h = crypto.SHA384
+	case req.MessageImprint.HashAlgorithm.Algorithm.Equal(oidSHA512):
+		h = crypto.SHA512
+	default:
+		return nil, fmt.Errorf("test TSA: unsupported hash %v", req.MessageImprint.HashAlgorithm.Algorithm)
+	}
+	tok := t.Token(TokenSpec{Hash: h, Hashed: req.MessageImprint.HashedMessage, Nonce: req.Nonce, GenTime: time.Now(), AccuracyS: 1, OmitCerts: !req.CertReq})
+	return &tspclient.Response{Status: pki.StatusInfo{Status: pki.StatusGranted}, TimestampToken: asn1.RawValue{FullBytes: tok}}, nil
 }
